@@ -36,6 +36,9 @@ var (
 	ErrSimWrite  = errors.New("simnet: injected write error")
 	ErrSimDial   = errors.New("simnet: injected dial error")
 	ErrSimBroken = errors.New("simnet: broken pipe")
+	// ErrSimWriteEOF wraps io.EOF: it is not io.EOF itself and must be treated as
+	// any other transport error
+	ErrSimWriteEOF = fmt.Errorf("simnet: injected write error (%w)", io.EOF)
 )
 
 // Conn is the simulated transport of one connection.
@@ -210,11 +213,15 @@ func (c *Conn) Write(p []byte) (int, error) {
 		c.writeDead = true
 		c.mu.Unlock()
 		s.fire("writeErr")
-		s.log(Rec{Kind: "write", Conn: c.k, N: w, V: int64(len(p)), Err: ErrSimWrite.Error(), S: fmt.Sprintf("prefix=%d", pre)})
-		c.logAttempt(p, ErrSimWrite.Error())
+		werr := ErrSimWrite
+		if f.Code == 1 {
+			werr = ErrSimWriteEOF
+		}
+		s.log(Rec{Kind: "write", Conn: c.k, N: w, V: int64(len(p)), Err: werr.Error(), S: fmt.Sprintf("prefix=%d", pre), B: true})
+		c.logAttempt(p, werr.Error())
 		// the link is dead: the peer will see the connection go away shortly
 		s.after(us(s.sc.Cfg.LatC2BUs), "writeErr-cut", func() { c.cut(true, "writeErr") })
-		return pre, ErrSimWrite
+		return pre, werr
 	}
 	if s.race && len(p) > 1 {
 		// copy the packet to the wire in two halves with a yield in between: two
@@ -308,6 +315,14 @@ func (c *Conn) Write(p []byte) (int, error) {
 
 // Close implements io.Closer (client side close).
 func (c *Conn) Close() error {
+	c.mu.Lock()
+	already := c.localClosed
+	c.mu.Unlock()
+	defer func() {
+		if !already {
+			c.s.yield("app.transportClose") // a Close() that takes its time to return
+		}
+	}()
 	c.mu.Lock()
 	c.closeCalls++
 	first := !c.localClosed
